@@ -9,7 +9,7 @@ that hold for every `tol` say so, statements that need exact comparisons are sta
 with a proved counterexample for `tol > 0`.  Vocabulary (`Sol`, `Canon`, `Feasible`, `ObjInv`,
 `basicSolution`): `Rooc/TabSem.lean`.
 -/
-import Rooc.Proofs.StartMain
+import Rooc.Proofs.Phase1
 import Mathlib.Algebra.Order.Field.Rat
 import Mathlib.Tactic.NormNum
 namespace Rooc.Props.C14
@@ -117,6 +117,44 @@ theorem into_tableau_canonical_partial {tol : K} (ht : 0 < tol) (sm : StdModel K
     ∃ T, intoTableau tol stallExtra phase1Limit sm = .ok T ∧ Canon T sm.rows.length sm.vars.length ∧
       ObjInv T sm.objective ∧ (∀ x, Sol T x ↔ Sol (Start.stdTab sm) x) ∧ ((∀ r ∈ sm.rows, 0 ≤ r.rhs) → Feasible T) :=
   Start.intoTableau_direct ht sm stallExtra phase1Limit hrows hobj hN hdir
+
+/-- **phase1_start_canonical.**  The artificial-variable tableau that `into_tableau_two_phase` hands to the
+solver is in canonical form, represents the phase-1 objective `Σ artificials`, extends the standard form by
+one artificial variable per row (`(x, z)` solves it iff `A x + z = b`), and is feasible when `b ≥ 0`.  Together
+with `steps_preserve` every tableau phase 1 visits has these properties. -/
+theorem phase1_start_canonical (sm : StdModel K) (hrows : ∀ r ∈ sm.rows, r.coeffs.length = sm.vars.length) :
+    Canon (phase1Tab sm) sm.rows.length (sm.vars.length + sm.rows.length) ∧
+    ObjInv (phase1Tab sm) (Phase1.phase1Cost sm.vars.length sm.rows.length) ∧
+    (∀ x z : List K, x.length = sm.vars.length → z.length = sm.rows.length →
+      (Sol (phase1Tab sm) (x ++ z) ↔
+        ∀ i, i < sm.rows.length → dot (row (sm.rows.map (·.coeffs)) i) x + nth z i = nth (sm.rows.map (·.rhs)) i)) ∧
+    ((∀ r ∈ sm.rows, 0 ≤ r.rhs) → Feasible (phase1Tab sm)) :=
+  Phase1.phase1_canonical sm hrows
+
+/-- **phase1_feasible_value_bound** (every `tol ≥ 0`).  If the standard form has a feasible point `x`, the value
+`v` at which phase 1 stops with success satisfies `−v ≤ tol·Σx`. -/
+theorem phase1_feasible_value_bound {tol : K} (htol : 0 ≤ tol) (sm : StdModel K)
+    (hrows : ∀ r ∈ sm.rows, r.coeffs.length = sm.vars.length) (stallExtra limit : Nat) (prefer : List Nat)
+    (hok : (solve tol stallExtra limit prefer (phase1Tab sm)).result = .ok ())
+    (x : List K) (hxl : x.length = sm.vars.length)
+    (hx : ∀ i, i < sm.rows.length → dot (row (sm.rows.map (·.coeffs)) i) x = nth (sm.rows.map (·.rhs)) i)
+    (hnn : ∀ v ∈ x, 0 ≤ v) :
+    -(solve tol stallExtra limit prefer (phase1Tab sm)).final.value ≤ tol * x.sum :=
+  Phase1.phase1_value_bound htol sm hrows stallExtra limit prefer hok x hxl hx hnn
+
+/-- **phase1_nonzero_infeasible_partial.**  When `into_tableau_two_phase` answers `Infesible` (phase 1 stopped at a
+value with `|v| ≥ tol`) and that value is `≤ 0` (as it is whenever the final phase-1 basic solution is
+non-negative), the standard form has no feasible point with `Σx < 1`.  PARTIAL by nature: with an ABSOLUTE
+tolerance on the phase-1 optimum nothing stronger is true (a feasible point far from the origin can leave a
+residual `≥ tol`; known finding `C14-absolute-tolerance-on-unscaled-data`). -/
+theorem phase1_nonzero_infeasible_partial (tol : K) (htol : 0 < tol) (sm : StdModel K)
+    (hrows : ∀ r ∈ sm.rows, r.coeffs.length = sm.vars.length) (stallExtra limit : Nat)
+    (h : twoPhase tol stallExtra limit sm = .error .infeasible)
+    (hv : (solve tol stallExtra limit ((List.range sm.rows.length).map (· + sm.vars.length)) (phase1Tab sm)).final.value ≤ 0)
+    (x : List K) (hxl : x.length = sm.vars.length)
+    (hx : ∀ i, i < sm.rows.length → dot (row (sm.rows.map (·.coeffs)) i) x = nth (sm.rows.map (·.rhs)) i)
+    (hnn : ∀ v ∈ x, 0 ≤ v) : 1 ≤ x.sum :=
+  Phase1.infeasible_report tol htol sm hrows stallExtra limit h hv x hxl hx hnn
 
 /-- **terminates_within_limit_partial.**  The loop performs at most `limit` pivots (it is fuel-bounded by
 construction).  That Bland's rule reaches `Finished`/`Unbounded` BEFORE the limit (no cycling) is the
